@@ -30,7 +30,7 @@ OUTDIR = WORK if SCRATCH else VERIF
 KDIR = os.path.join(VERIF, "kani")
 FEATURES = "std,pratt,extension,either,unstable"
 WORKERS = int(os.environ.get("VERIF_WORKERS", "12"))
-HARNESS_TIMEOUT = {"quick": 700, "thorough": 1500}
+HARNESS_TIMEOUT = {"quick": 800, "thorough": 1500}
 
 sys.path.insert(0, VERIF)
 
@@ -389,7 +389,7 @@ def load_known():
     return {"findings": [], "fixed": []}
 
 
-QUICK_MAX_REGISTERED_S = 240
+QUICK_MAX_REGISTERED_S = 320
 
 
 def tier_of(name, entry=None):
